@@ -820,7 +820,24 @@ def y9(rep, src):
         return
     f = fs[0]
     row_call = lambda e: any(x["k"] == "call" and (path_of(x["f"]) or "").endswith("privacy_unit_row") and not x["args"] for x in walk(e))
-    sites = [n for n in find(f.body, "if") if n["cond"]["k"] != "letcond" and row_call(n["cond"]) and any(x["k"] == "mcall" and x["m"] in ("contains", "any", "iter") for x in walk(n["cond"]))]
+    named = {l["pat"]["name"]: l["init"] for l in find(f.body, "let") if l["pat"]["k"] == "ident" and l.get("init") is not None}
+
+    def cond_of(n):  # the test may be a named flag: `let refers_to_row_id = referred_fields.contains(..); if refers_to_row_id { .. }`
+        c = n["cond"]
+        neg = False
+        while c["k"] == "unary" and c["op"].strip() == "!":
+            c, neg = c["e"], not neg
+        if c["k"] == "path" and len(c["segs"]) == 1 and c["segs"][0] in named:
+            c = named[c["segs"][0]]
+        return {"k": "unary", "op": "!", "e": c, "l": c.get("l", 0)} if neg else c
+
+    sites = []
+    for n in find(f.body, "if"):
+        if n["cond"]["k"] == "letcond":
+            continue
+        c = cond_of(n)
+        if row_call(c) and any(x["k"] == "mcall" and x["m"] in ("contains", "any", "iter") for x in walk(c)):
+            sites.append(dict(n, cond=c))
     if len(sites) != 1:
         rep.undecidable("Y9", key, "expected one `if referred_fields.contains(&PrivacyUnit::privacy_unit_row()..)`, found %d" % len(sites), f.where())
         return
